@@ -183,7 +183,7 @@ Lemma nworld_map_worlds : forall mask f d, nworld (map_worlds mask f d) = nworld
 Proof. intros. unfold nworld, lenZ, map_worlds; simpl. rewrite map_worlds_from_length. reflexivity. Qed.
 
 Definition reset_world (m : MModel) (w : Z) (x : World) : World :=
-  k_nworld_w m w (k_sleep m w (k_mocap m w (k_M m w (k_xfrc m w x)))).
+  k_nworld_w m w (k_sleep m w (k_mocap m w (k_efcJ m w (k_M m w (k_xfrc m w x))))).
 Definition post_sleep (m : MModel) (x : World) : World :=
   if sleep_enabled m then update_sleep_w m x else x.
 
@@ -198,16 +198,16 @@ Lemma world_of_reset_kernels : forall m mask d w,
 Proof.
   intros. unfold reset_kernels, post_sleep.
   assert (E : world_of (k_nworld m mask (map_worlds mask (k_sleep m) (k_contact m mask
-               (map_worlds mask (k_mocap m) (map_worlds mask (k_M m) (map_worlds mask (k_xfrc m) d)))))) w
+               (map_worlds mask (k_mocap m) (map_worlds mask (k_efcJ m) (map_worlds mask (k_M m) (map_worlds mask (k_xfrc m) d))))))) w
           = option_map (fun x => if selected mask w then reset_world m w x else x) (world_of d w)).
   { unfold k_nworld. 
     change (world_of {| worlds := ?a; contacts := ?b; nacon := ?c |} w) with (world_of {| worlds := a; contacts := b; nacon := 0 |} w).
     match goal with |- world_of ?D w = _ => 
       replace (world_of D w) with (world_of (map_worlds mask (k_nworld_w m) (map_worlds mask (k_sleep m)
-        (k_contact m mask (map_worlds mask (k_mocap m) (map_worlds mask (k_M m) (map_worlds mask (k_xfrc m) d)))))) w) by reflexivity end.
+        (k_contact m mask (map_worlds mask (k_mocap m) (map_worlds mask (k_efcJ m) (map_worlds mask (k_M m) (map_worlds mask (k_xfrc m) d))))))) w) by reflexivity end.
     rewrite !world_of_map_worlds.
-    replace (world_of (k_contact m mask (map_worlds mask (k_mocap m) (map_worlds mask (k_M m) (map_worlds mask (k_xfrc m) d)))) w)
-      with (world_of (map_worlds mask (k_mocap m) (map_worlds mask (k_M m) (map_worlds mask (k_xfrc m) d))) w) by reflexivity.
+    replace (world_of (k_contact m mask (map_worlds mask (k_mocap m) (map_worlds mask (k_efcJ m) (map_worlds mask (k_M m) (map_worlds mask (k_xfrc m) d))))) w)
+      with (world_of (map_worlds mask (k_mocap m) (map_worlds mask (k_efcJ m) (map_worlds mask (k_M m) (map_worlds mask (k_xfrc m) d)))) w) by reflexivity.
     rewrite !world_of_map_worlds.
     destruct (world_of d w); simpl; auto. unfold reset_world. destruct (selected mask w); reflexivity. }
   destruct (sleep_enabled m).
@@ -307,7 +307,7 @@ Qed.
 Record wf_model (m : MModel) : Prop := {
   wm_nq : 0 <= nq m; wm_nv : 0 <= nv m; wm_nu : 0 <= nu m; wm_na : 0 <= na m; wm_nbody : 0 <= nbody m;
   wm_ntree : 0 <= ntree m; wm_neq : 0 <= neq m; wm_nuserdata : 0 <= nuserdata m; wm_nsensordata : 0 <= nsensordata m;
-  wm_nmocap : 0 <= nmocap m; wm_nhistory : 0 <= nhistory m; wm_nM : 0 <= nM m; wm_nefc : 0 <= nefcaddress m;
+  wm_nmocap : 0 <= nmocap m; wm_nhistory : 0 <= nhistory m; wm_nM : 0 <= nM m; wm_nJr : 0 <= nJr m; wm_nJc : 0 <= nJc m; wm_nefc : 0 <= nefcaddress m;
   wm_nfev : 0 <= nfev m; wm_minawake : 0 <= minawake m;
   wm_qpos0 : qpos0 m <> [] /\ Forall (fun r => lenZ r = nq m) (qpos0 m);
   wm_eq0 : lenZ (eq_active0 m) = neq m;
@@ -352,7 +352,8 @@ Record wf_world (m : MModel) (x : World) : Prop := {
   ww_baw : lenZ (w_body_awake x) = nbody m; ww_bind : lenZ (w_body_awake_ind x) = nbody m;
   ww_dind : lenZ (w_dof_awake_ind x) = nv m;
   ww_cvel : lenZ (w_cvel x) = nbody m /\ Forall (fun r => lenZ r = 6) (w_cvel x);
-  ww_cdofdot : lenZ (w_cdof_dot x) = nv m
+  ww_cdofdot : lenZ (w_cdof_dot x) = nv m;
+  ww_efcJ : lenZ (w_efc_J x) = nJr m /\ Forall (fun r => lenZ r = nJc m) (w_efc_J x)
 }.
 
 Definition wf_data (m : MModel) (d : Data) : Prop := Forall (wf_world m) (worlds d).
@@ -444,9 +445,9 @@ Proof.
 Qed.
 
 (* ---------- a selected world after the six kernels ---------------------------------------------- *)
-Lemma world_eq : forall a0 a1 a2 a3 a4 a5 a6 a7 a8 a9 a10 a11 a12 a13 a14 a15 a16 a17 a18 a19 a20 a21 a22 a23 a24 a25 a26 a27 a28 a29 a30 a31 a32 a33 b0 b1 b2 b3 b4 b5 b6 b7 b8 b9 b10 b11 b12 b13 b14 b15 b16 b17 b18 b19 b20 b21 b22 b23 b24 b25 b26 b27 b28 b29 b30 b31 b32 b33,
-  a0 = b0 -> a1 = b1 -> a2 = b2 -> a3 = b3 -> a4 = b4 -> a5 = b5 -> a6 = b6 -> a7 = b7 -> a8 = b8 -> a9 = b9 -> a10 = b10 -> a11 = b11 -> a12 = b12 -> a13 = b13 -> a14 = b14 -> a15 = b15 -> a16 = b16 -> a17 = b17 -> a18 = b18 -> a19 = b19 -> a20 = b20 -> a21 = b21 -> a22 = b22 -> a23 = b23 -> a24 = b24 -> a25 = b25 -> a26 = b26 -> a27 = b27 -> a28 = b28 -> a29 = b29 -> a30 = b30 -> a31 = b31 -> a32 = b32 -> a33 = b33 ->
-  Build_World a0 a1 a2 a3 a4 a5 a6 a7 a8 a9 a10 a11 a12 a13 a14 a15 a16 a17 a18 a19 a20 a21 a22 a23 a24 a25 a26 a27 a28 a29 a30 a31 a32 a33 = Build_World b0 b1 b2 b3 b4 b5 b6 b7 b8 b9 b10 b11 b12 b13 b14 b15 b16 b17 b18 b19 b20 b21 b22 b23 b24 b25 b26 b27 b28 b29 b30 b31 b32 b33.
+Lemma world_eq : forall a0 a1 a2 a3 a4 a5 a6 a7 a8 a9 a10 a11 a12 a13 a14 a15 a16 a17 a18 a19 a20 a21 a22 a23 a24 a25 a26 a27 a28 a29 a30 a31 a32 a33 a34 b0 b1 b2 b3 b4 b5 b6 b7 b8 b9 b10 b11 b12 b13 b14 b15 b16 b17 b18 b19 b20 b21 b22 b23 b24 b25 b26 b27 b28 b29 b30 b31 b32 b33 b34,
+  a0 = b0 -> a1 = b1 -> a2 = b2 -> a3 = b3 -> a4 = b4 -> a5 = b5 -> a6 = b6 -> a7 = b7 -> a8 = b8 -> a9 = b9 -> a10 = b10 -> a11 = b11 -> a12 = b12 -> a13 = b13 -> a14 = b14 -> a15 = b15 -> a16 = b16 -> a17 = b17 -> a18 = b18 -> a19 = b19 -> a20 = b20 -> a21 = b21 -> a22 = b22 -> a23 = b23 -> a24 = b24 -> a25 = b25 -> a26 = b26 -> a27 = b27 -> a28 = b28 -> a29 = b29 -> a30 = b30 -> a31 = b31 -> a32 = b32 -> a33 = b33 -> a34 = b34 ->
+  Build_World a0 a1 a2 a3 a4 a5 a6 a7 a8 a9 a10 a11 a12 a13 a14 a15 a16 a17 a18 a19 a20 a21 a22 a23 a24 a25 a26 a27 a28 a29 a30 a31 a32 a33 a34 = Build_World b0 b1 b2 b3 b4 b5 b6 b7 b8 b9 b10 b11 b12 b13 b14 b15 b16 b17 b18 b19 b20 b21 b22 b23 b24 b25 b26 b27 b28 b29 b30 b31 b32 b33 b34.
 Proof. intros; subst; reflexivity. Qed.
 
 Theorem reset_world_fresh : forall m w x,
@@ -455,7 +456,7 @@ Theorem reset_world_fresh : forall m w x,
 Proof.
   intros m w x WM TC MJ WW Hw.
   pose proof (wm_qpos0 _ WM) as [Q0 Q1]. pose proof (wm_body_pos _ WM) as [P0 P1]. pose proof (wm_body_quat _ WM) as [R0 R1].
-  pose proof (ww_xfrc _ _ WW) as [X0 X1]. pose proof (ww_cvel _ _ WW) as [V0 V1].
+  pose proof (ww_xfrc _ _ WW) as [X0 X1]. pose proof (ww_cvel _ _ WW) as [V0 V1]. pose proof (ww_efcJ _ _ WW) as [J0 J1].
   pose proof (hqpos0_length m WM TC) as Hq. pose proof (mj_nv_le_nq _ MJ) as Hnv.
   pose proof (wm_ntree _ WM). pose proof (wm_nv _ WM). pose proof (wm_nbody _ WM).
   unfold reset_world, k_nworld_w, fresh_world. simpl.
@@ -493,6 +494,7 @@ Proof.
     apply (ww_dind _ _ WW). allk.
   - apply cond_map_rows_zero; auto.
   - apply (cond_map_const_gen _ _ _ (zeros 6) [] _ (nv m)). apply (ww_cdofdot _ _ WW). allk.
+  - apply cond_map_rows_zero; auto.
 Qed.
 
 (* ---------- sleep.update_sleep on a fresh world is the identity --------------------------------- *)
@@ -762,16 +764,16 @@ Proof. intros. unfold reset_data. replace (lenZ l =? nworld d) with false by lia
 (* wit_con: the open partial-mask contact defect.  wit_act, wit_hist, wit_mchild: inputs of defects that were
    repaired in /repo (act with na > nu, history, body_awake of a mocap child); they stay as regression states.
    wit_key: a model with two keyframes (C14).  All are explicit values: nothing here depends on /repo. *)
-Definition wit_act_m : MModel := (Build_MModel (1) (1) (1) (3) (2) (1) (0) (0) (0) (0) (0) (1) (4) (0) (10) false [[0]] [] [(-1); (-1)] [(-1); 0] [0; 1] [1] [[[0; 0; 0]; [0; 0; 0]]] [[[1065353216; 0; 0; 0]; [1065353216; 0; 0; 0]]] [] [0] [] [[0; 0; 0]; [0; 0; 0]] [[1065353216; 0; 0; 0]; [1065353216; 0; 0; 0]] [] (0) [] [] [] [] [] [] []).
-Definition wit_act_d : Data := (Build_Data [(Build_World (0) [0] [0] [1088421888; 1088421888; 1088421888] [] [0] [0] [0] [[0; 0; 0; 0; 0; 0]; [0; 0; 0; 0; 0; 0]] [] [] [] [] (0) (0) (0) (0) (0) (1) (2) (1) [0; 0] [0] [0; 0; 0] [] [0] [(-11)] [1] [(-1); 1] [0; 1] [0] [[0; 0; 0; 0; 0; 0]; [0; 0; 0; 0; 0; 0]] [[0; 0; 0; 0; 0; 0]] (0))] [] (0)).
-Definition wit_hist_m : MModel := (Build_MModel (1) (1) (1) (0) (2) (1) (0) (0) (0) (0) (6) (1) (4) (0) (10) false [[0]] [] [(-1); (-1)] [(-1); 0] [0; 1] [1] [[[0; 0; 0]; [0; 0; 0]]] [[[1065353216; 0; 0; 0]; [1065353216; 0; 0; 0]]] [0; 1065353216; (-1149037969); (-1157426577); 0; 0] [0] [] [[0; 0; 0]; [0; 0; 0]] [[1065353216; 0; 0; 0]; [1065353216; 0; 0; 0]] [0; 1065353216; (-1149037969); (-1157426577); 0; 0] (0) [] [] [] [] [] [] []).
-Definition wit_hist_d : Data := (Build_Data [(Build_World (0) [0] [0] [] [1069547520; 1069547520; 1069547520; 1069547520; 1069547520; 1069547520] [0] [0] [0] [[0; 0; 0; 0; 0; 0]; [0; 0; 0; 0; 0; 0]] [] [] [] [] (0) (0) (0) (0) (0) (1) (2) (1) [0; 0] [0] [] [] [0] [(-11)] [1] [(-1); 1] [0; 1] [0] [[0; 0; 0; 0; 0; 0]; [0; 0; 0; 0; 0; 0]] [[0; 0; 0; 0; 0; 0]] (0))] [] (0)).
-Definition wit_con_m : MModel := (Build_MModel (1) (1) (0) (0) (2) (1) (0) (0) (0) (0) (0) (1) (4) (0) (10) false [[0]] [] [(-1); (-1)] [(-1); 0] [0; 1] [1] [[[0; 0; 0]; [0; 0; 1035489772]]] [[[1065353216; 0; 0; 0]; [1065353216; 0; 0; 0]]] [] [0] [] [[0; 0; 0]; [0; 0; 1035489772]] [[1065353216; 0; 0; 0]; [1065353216; 0; 0; 0]] [] (0) [] [] [] [] [] [] []).
-Definition wit_con_d : Data := (Build_Data [(Build_World (0) [0] [0] [] [] [0] [] [0] [[0; 0; 0; 0; 0; 0]; [0; 0; 0; 0; 0; 0]] [] [] [] [] (0) (0) (0) (0) (0) (1) (2) (1) [0; 0] [0] [] [] [0] [(-11)] [1] [(-1); 1] [0; 1] [0] [[0; 0; 0; 0; 0; 0]; [0; 0; 0; 0; 0; 0]] [[0; 0; 0; 0; 0; 0]] (0)); (Build_World (0) [0] [0] [] [] [0] [] [0] [[0; 0; 0; 0; 0; 0]; [0; 0; 0; 0; 0; 0]] [] [] [] [] (0) (0) (0) (0) (0) (1) (2) (1) [0; 0] [0] [] [] [0] [(-11)] [1] [(-1); 1] [0; 1] [0] [[0; 0; 0; 0; 0; 0]; [0; 0; 0; 0; 0; 0]] [[0; 0; 0; 0; 0; 0]] (0))] [(Build_Slot (0) [0; 1] (3) (0) (0) [(-1); (-1); (-1); (-1)] [(-1138501878); 0; 0; 0; 0; 0; 0; 0; 0; 0; 0; 0; 0; 0; 0; 0; 0; 0; 0; 0; 0; 0; 0; 0; 0; 0; 0; 0; 0] []); (Build_Slot (1) [0; 1] (3) (0) (0) [(-1); (-1); (-1); (-1)] [(-1130113270); 0; 0; 0; 0; 0; 0; 0; 0; 0; 0; 0; 0; 0; 0; 0; 0; 0; 0; 0; 0; 0; 0; 0; 0; 0; 0; 0; 0] [])] (2)).
-Definition wit_mchild_m : MModel := (Build_MModel (1) (1) (0) (0) (4) (1) (0) (0) (0) (1) (0) (1) (4) (0) (10) false [[0]] [] [(-1); 0; (-1); (-1)] [(-1); (-1); (-1); 0] [0; 1; 1; 3] [3] [[[0; 0; 0]; [0; 0; 1065353216]; [0; 0; 1050253722]; [0; 0; 0]]] [[[1065353216; 0; 0; 0]; [1065353216; 0; 0; 0]; [1065353216; 0; 0; 0]; [1065353216; 0; 0; 0]]] [] [0] [] [[0; 0; 0]; [0; 0; 1065353216]; [0; 0; 1050253722]; [0; 0; 0]] [[1065353216; 0; 0; 0]; [1065353216; 0; 0; 0]; [1065353216; 0; 0; 0]; [1065353216; 0; 0; 0]] [] (0) [] [] [] [] [] [] []).
-Definition wit_mchild_d : Data := (Build_Data [(Build_World (0) [0] [0] [] [] [0] [] [0] [[0; 0; 0; 0; 0; 0]; [0; 0; 0; 0; 0; 0]; [0; 0; 0; 0; 0; 0]; [0; 0; 0; 0; 0; 0]] [] [[0; 0; 1065353216]] [[1065353216; 0; 0; 0]] [] (0) (0) (0) (0) (0) (1) (4) (1) [0; 0] [0] [] [] [0] [(-11)] [1] [(-1); 1; 1; 1] [0; 1; 2; 3] [0] [[0; 0; 0; 0; 0; 0]; [0; 0; 0; 0; 0; 0]; [0; 0; 0; 0; 0; 0]; [0; 0; 0; 0; 0; 0]] [[0; 0; 0; 0; 0; 0]] (0))] [] (0)).
-Definition wit_key_m : MModel := (Build_MModel (1) (1) (1) (2) (3) (1) (0) (0) (0) (1) (0) (1) (4) (0) (10) false [[0]] [] [(-1); 0; (-1)] [(-1); (-1); 0] [0; 1; 2] [2] [[[0; 0; 0]; [0; 0; 1065353216]; [0; 0; 0]]] [[[1065353216; 0; 0; 0]; [1065353216; 0; 0; 0]; [1065353216; 0; 0; 0]]] [] [0] [] [[0; 0; 0]; [0; 0; 1065353216]; [0; 0; 0]] [[1065353216; 0; 0; 0]; [1065353216; 0; 0; 0]; [1065353216; 0; 0; 0]] [] (2) [1069547520; 1075838976] [[1048576000]; [1061158912]] [[(-1090519040)]; [1056964608]] [[1073741824; 1077936128]; [1084227584; 1086324736]] [[1082130432]; [1088421888]] [[[1065353216; 1073741824; 1077936128]]; [[1077936128; 1073741824; 1065353216]]] [[[0; 1065353216; 0; 0]]; [[0; 0; 1065353216; 0]]]).
-Definition wit_key_d : Data := (Build_Data [(Build_World (1091567616) [0] [1065353216] [1088421888; 1088421888] [] [0] [0] [0] [[0; 0; 0; 0; 0; 0]; [0; 0; 0; 0; 0; 0]; [0; 0; 0; 0; 0; 0]] [] [[0; 0; 1065353216]] [[1065353216; 0; 0; 0]] [] (0) (0) (0) (0) (0) (1) (3) (1) [0; 0] [0] [0; 0] [] [0] [(-11)] [1] [(-1); 1; 1] [0; 1; 2] [0] [[0; 0; 0; 0; 0; 0]; [0; 0; 0; 0; 0; 0]; [0; 0; 0; 0; 0; 0]] [[0; 0; 0; 0; 0; 0]] (0)); (Build_World (1091567616) [0] [1065353216] [1088421888; 1088421888] [] [0] [0] [0] [[0; 0; 0; 0; 0; 0]; [0; 0; 0; 0; 0; 0]; [0; 0; 0; 0; 0; 0]] [] [[0; 0; 1065353216]] [[1065353216; 0; 0; 0]] [] (0) (0) (0) (0) (0) (1) (3) (1) [0; 0] [0] [0; 0] [] [0] [(-11)] [1] [(-1); 1; 1] [0; 1; 2] [0] [[0; 0; 0; 0; 0; 0]; [0; 0; 0; 0; 0; 0]; [0; 0; 0; 0; 0; 0]] [[0; 0; 0; 0; 0; 0]] (0))] [] (0)).
+Definition wit_act_m : MModel := (Build_MModel (1) (1) (1) (3) (2) (1) (0) (0) (0) (0) (0) (1) (16) (4) (4) (0) (10) false [[0]] [] [(-1); (-1)] [(-1); 0] [0; 1] [1] [[[0; 0; 0]; [0; 0; 0]]] [[[1065353216; 0; 0; 0]; [1065353216; 0; 0; 0]]] [] [0] [] [[0; 0; 0]; [0; 0; 0]] [[1065353216; 0; 0; 0]; [1065353216; 0; 0; 0]] [] (0) [] [] [] [] [] [] []).
+Definition wit_act_d : Data := (Build_Data [(Build_World (0) [0] [0] [1088421888; 1088421888; 1088421888] [] [0] [0] [0] [[0; 0; 0; 0; 0; 0]; [0; 0; 0; 0; 0; 0]] [] [] [] [] (0) (0) (0) (0) (0) (1) (2) (1) [0; 0] [0] [0; 0; 0] [] [0] [(-11)] [1] [(-1); 1] [0; 1] [0] [[0; 0; 0; 0; 0; 0]; [0; 0; 0; 0; 0; 0]] [[0; 0; 0; 0; 0; 0]] [[0; 0; 0; 0]; [0; 0; 0; 0]; [0; 0; 0; 0]; [0; 0; 0; 0]; [0; 0; 0; 0]; [0; 0; 0; 0]; [0; 0; 0; 0]; [0; 0; 0; 0]; [0; 0; 0; 0]; [0; 0; 0; 0]; [0; 0; 0; 0]; [0; 0; 0; 0]; [0; 0; 0; 0]; [0; 0; 0; 0]; [0; 0; 0; 0]; [0; 0; 0; 0]] (0))] [] (0)).
+Definition wit_hist_m : MModel := (Build_MModel (1) (1) (1) (0) (2) (1) (0) (0) (0) (0) (6) (1) (16) (4) (4) (0) (10) false [[0]] [] [(-1); (-1)] [(-1); 0] [0; 1] [1] [[[0; 0; 0]; [0; 0; 0]]] [[[1065353216; 0; 0; 0]; [1065353216; 0; 0; 0]]] [0; 1065353216; (-1149037969); (-1157426577); 0; 0] [0] [] [[0; 0; 0]; [0; 0; 0]] [[1065353216; 0; 0; 0]; [1065353216; 0; 0; 0]] [0; 1065353216; (-1149037969); (-1157426577); 0; 0] (0) [] [] [] [] [] [] []).
+Definition wit_hist_d : Data := (Build_Data [(Build_World (0) [0] [0] [] [1069547520; 1069547520; 1069547520; 1069547520; 1069547520; 1069547520] [0] [0] [0] [[0; 0; 0; 0; 0; 0]; [0; 0; 0; 0; 0; 0]] [] [] [] [] (0) (0) (0) (0) (0) (1) (2) (1) [0; 0] [0] [] [] [0] [(-11)] [1] [(-1); 1] [0; 1] [0] [[0; 0; 0; 0; 0; 0]; [0; 0; 0; 0; 0; 0]] [[0; 0; 0; 0; 0; 0]] [[0; 0; 0; 0]; [0; 0; 0; 0]; [0; 0; 0; 0]; [0; 0; 0; 0]; [0; 0; 0; 0]; [0; 0; 0; 0]; [0; 0; 0; 0]; [0; 0; 0; 0]; [0; 0; 0; 0]; [0; 0; 0; 0]; [0; 0; 0; 0]; [0; 0; 0; 0]; [0; 0; 0; 0]; [0; 0; 0; 0]; [0; 0; 0; 0]; [0; 0; 0; 0]] (0))] [] (0)).
+Definition wit_con_m : MModel := (Build_MModel (1) (1) (0) (0) (2) (1) (0) (0) (0) (0) (0) (1) (16) (4) (4) (0) (10) false [[0]] [] [(-1); (-1)] [(-1); 0] [0; 1] [1] [[[0; 0; 0]; [0; 0; 1035489772]]] [[[1065353216; 0; 0; 0]; [1065353216; 0; 0; 0]]] [] [0] [] [[0; 0; 0]; [0; 0; 1035489772]] [[1065353216; 0; 0; 0]; [1065353216; 0; 0; 0]] [] (0) [] [] [] [] [] [] []).
+Definition wit_con_d : Data := (Build_Data [(Build_World (0) [0] [0] [] [] [0] [] [0] [[0; 0; 0; 0; 0; 0]; [0; 0; 0; 0; 0; 0]] [] [] [] [] (0) (0) (0) (0) (0) (1) (2) (1) [0; 0] [0] [] [] [0] [(-11)] [1] [(-1); 1] [0; 1] [0] [[0; 0; 0; 0; 0; 0]; [0; 0; 0; 0; 0; 0]] [[0; 0; 0; 0; 0; 0]] [[0; 0; 0; 0]; [0; 0; 0; 0]; [0; 0; 0; 0]; [0; 0; 0; 0]; [0; 0; 0; 0]; [0; 0; 0; 0]; [0; 0; 0; 0]; [0; 0; 0; 0]; [0; 0; 0; 0]; [0; 0; 0; 0]; [0; 0; 0; 0]; [0; 0; 0; 0]; [0; 0; 0; 0]; [0; 0; 0; 0]; [0; 0; 0; 0]; [0; 0; 0; 0]] (0)); (Build_World (0) [0] [0] [] [] [0] [] [0] [[0; 0; 0; 0; 0; 0]; [0; 0; 0; 0; 0; 0]] [] [] [] [] (0) (0) (0) (0) (0) (1) (2) (1) [0; 0] [0] [] [] [0] [(-11)] [1] [(-1); 1] [0; 1] [0] [[0; 0; 0; 0; 0; 0]; [0; 0; 0; 0; 0; 0]] [[0; 0; 0; 0; 0; 0]] [[0; 0; 0; 0]; [0; 0; 0; 0]; [0; 0; 0; 0]; [0; 0; 0; 0]; [0; 0; 0; 0]; [0; 0; 0; 0]; [0; 0; 0; 0]; [0; 0; 0; 0]; [0; 0; 0; 0]; [0; 0; 0; 0]; [0; 0; 0; 0]; [0; 0; 0; 0]; [0; 0; 0; 0]; [0; 0; 0; 0]; [0; 0; 0; 0]; [0; 0; 0; 0]] (0))] [(Build_Slot (0) [0; 1] (3) (0) (0) [(-1); (-1); (-1); (-1)] [(-1138501878); 0; 0; 0; 0; 0; 0; 0; 0; 0; 0; 0; 0; 0; 0; 0; 0; 0; 0; 0; 0; 0; 0; 0; 0; 0; 0; 0; 0] []); (Build_Slot (1) [0; 1] (3) (0) (0) [(-1); (-1); (-1); (-1)] [(-1130113270); 0; 0; 0; 0; 0; 0; 0; 0; 0; 0; 0; 0; 0; 0; 0; 0; 0; 0; 0; 0; 0; 0; 0; 0; 0; 0; 0; 0] [])] (2)).
+Definition wit_mchild_m : MModel := (Build_MModel (1) (1) (0) (0) (4) (1) (0) (0) (0) (1) (0) (1) (16) (4) (4) (0) (10) false [[0]] [] [(-1); 0; (-1); (-1)] [(-1); (-1); (-1); 0] [0; 1; 1; 3] [3] [[[0; 0; 0]; [0; 0; 1065353216]; [0; 0; 1050253722]; [0; 0; 0]]] [[[1065353216; 0; 0; 0]; [1065353216; 0; 0; 0]; [1065353216; 0; 0; 0]; [1065353216; 0; 0; 0]]] [] [0] [] [[0; 0; 0]; [0; 0; 1065353216]; [0; 0; 1050253722]; [0; 0; 0]] [[1065353216; 0; 0; 0]; [1065353216; 0; 0; 0]; [1065353216; 0; 0; 0]; [1065353216; 0; 0; 0]] [] (0) [] [] [] [] [] [] []).
+Definition wit_mchild_d : Data := (Build_Data [(Build_World (0) [0] [0] [] [] [0] [] [0] [[0; 0; 0; 0; 0; 0]; [0; 0; 0; 0; 0; 0]; [0; 0; 0; 0; 0; 0]; [0; 0; 0; 0; 0; 0]] [] [[0; 0; 1065353216]] [[1065353216; 0; 0; 0]] [] (0) (0) (0) (0) (0) (1) (4) (1) [0; 0] [0] [] [] [0] [(-11)] [1] [(-1); 1; 1; 1] [0; 1; 2; 3] [0] [[0; 0; 0; 0; 0; 0]; [0; 0; 0; 0; 0; 0]; [0; 0; 0; 0; 0; 0]; [0; 0; 0; 0; 0; 0]] [[0; 0; 0; 0; 0; 0]] [[0; 0; 0; 0]; [0; 0; 0; 0]; [0; 0; 0; 0]; [0; 0; 0; 0]; [0; 0; 0; 0]; [0; 0; 0; 0]; [0; 0; 0; 0]; [0; 0; 0; 0]; [0; 0; 0; 0]; [0; 0; 0; 0]; [0; 0; 0; 0]; [0; 0; 0; 0]; [0; 0; 0; 0]; [0; 0; 0; 0]; [0; 0; 0; 0]; [0; 0; 0; 0]] (0))] [] (0)).
+Definition wit_key_m : MModel := (Build_MModel (1) (1) (1) (2) (3) (1) (0) (0) (0) (1) (0) (1) (16) (4) (4) (0) (10) false [[0]] [] [(-1); 0; (-1)] [(-1); (-1); 0] [0; 1; 2] [2] [[[0; 0; 0]; [0; 0; 1065353216]; [0; 0; 0]]] [[[1065353216; 0; 0; 0]; [1065353216; 0; 0; 0]; [1065353216; 0; 0; 0]]] [] [0] [] [[0; 0; 0]; [0; 0; 1065353216]; [0; 0; 0]] [[1065353216; 0; 0; 0]; [1065353216; 0; 0; 0]; [1065353216; 0; 0; 0]] [] (2) [1069547520; 1075838976] [[1048576000]; [1061158912]] [[(-1090519040)]; [1056964608]] [[1073741824; 1077936128]; [1084227584; 1086324736]] [[1082130432]; [1088421888]] [[[1065353216; 1073741824; 1077936128]]; [[1077936128; 1073741824; 1065353216]]] [[[0; 1065353216; 0; 0]]; [[0; 0; 1065353216; 0]]]).
+Definition wit_key_d : Data := (Build_Data [(Build_World (1091567616) [0] [1065353216] [1088421888; 1088421888] [] [0] [0] [0] [[0; 0; 0; 0; 0; 0]; [0; 0; 0; 0; 0; 0]; [0; 0; 0; 0; 0; 0]] [] [[0; 0; 1065353216]] [[1065353216; 0; 0; 0]] [] (0) (0) (0) (0) (0) (1) (3) (1) [0; 0] [0] [0; 0] [] [0] [(-11)] [1] [(-1); 1; 1] [0; 1; 2] [0] [[0; 0; 0; 0; 0; 0]; [0; 0; 0; 0; 0; 0]; [0; 0; 0; 0; 0; 0]] [[0; 0; 0; 0; 0; 0]] [[0; 0; 0; 0]; [0; 0; 0; 0]; [0; 0; 0; 0]; [0; 0; 0; 0]; [0; 0; 0; 0]; [0; 0; 0; 0]; [0; 0; 0; 0]; [0; 0; 0; 0]; [0; 0; 0; 0]; [0; 0; 0; 0]; [0; 0; 0; 0]; [0; 0; 0; 0]; [0; 0; 0; 0]; [0; 0; 0; 0]; [0; 0; 0; 0]; [0; 0; 0; 0]] (0)); (Build_World (1091567616) [0] [1065353216] [1088421888; 1088421888] [] [0] [0] [0] [[0; 0; 0; 0; 0; 0]; [0; 0; 0; 0; 0; 0]; [0; 0; 0; 0; 0; 0]] [] [[0; 0; 1065353216]] [[1065353216; 0; 0; 0]] [] (0) (0) (0) (0) (0) (1) (3) (1) [0; 0] [0] [0; 0] [] [0] [(-11)] [1] [(-1); 1; 1] [0; 1; 2] [0] [[0; 0; 0; 0; 0; 0]; [0; 0; 0; 0; 0; 0]; [0; 0; 0; 0; 0; 0]] [[0; 0; 0; 0; 0; 0]] [[0; 0; 0; 0]; [0; 0; 0; 0]; [0; 0; 0; 0]; [0; 0; 0; 0]; [0; 0; 0; 0]; [0; 0; 0; 0]; [0; 0; 0; 0]; [0; 0; 0; 0]; [0; 0; 0; 0]; [0; 0; 0; 0]; [0; 0; 0; 0]; [0; 0; 0; 0]; [0; 0; 0; 0]; [0; 0; 0; 0]; [0; 0; 0; 0]; [0; 0; 0; 0]] (0))] [] (0)).
 
 Ltac wf_solve :=
   repeat match goal with
@@ -854,7 +856,7 @@ Definition key_world (m : MModel) (k : Z) : World :=
   w_energy := w_energy f; w_qacc := w_qacc f; w_act_dot := w_act_dot f; w_sensordata := w_sensordata f; w_M := w_M f;
   w_tree_asleep := w_tree_asleep f; w_tree_awake := w_tree_awake f; w_body_awake := w_body_awake f;
   w_body_awake_ind := w_body_awake_ind f; w_dof_awake_ind := w_dof_awake_ind f;
-  w_cvel := w_cvel f; w_cdof_dot := w_cdof_dot f; w_overflow := w_overflow f |}.
+  w_cvel := w_cvel f; w_cdof_dot := w_cdof_dot f; w_efc_J := w_efc_J f; w_overflow := w_overflow f |}.
 
 Lemma nthZ_map : forall A B (f : A -> B) l k d d', 0 <= k < lenZ l -> nthZ (map f l) k d = f (nthZ l k d').
 Proof.
@@ -905,7 +907,7 @@ Proof.
   unfold k_keyframe_w, key_world. cbn [fresh_world w_time w_qpos w_qvel w_act w_history w_qacc_warmstart w_ctrl
     w_qfrc_applied w_xfrc_applied w_eq_active w_mocap_pos w_mocap_quat w_userdata w_solver_niter w_ne w_nf w_nl
     w_nefc w_ntree_awake w_nbody_awake w_nv_awake w_energy w_qacc w_act_dot w_sensordata w_M w_tree_asleep
-    w_tree_awake w_body_awake w_body_awake_ind w_dof_awake_ind w_cvel w_cdof_dot w_overflow].
+    w_tree_awake w_body_awake w_body_awake_ind w_dof_awake_ind w_cvel w_cdof_dot w_efc_J w_overflow].
   apply world_eq; try reflexivity.
   - apply cond_map_table. pose proof (F _ _ _ K1 K1'). unfold lenZ in *. lia. rewrite (F _ _ _ K1 K1'). allk.
   - apply cond_map_table. pose proof (F _ _ _ K2 K2'). pose proof (LZ _ (wm_nv _ WM)). unfold lenZ in *. lia.
